@@ -173,7 +173,9 @@ void Exec::op_read(Client &c) {
 					world.cur_op = saved; after_lib_call("read-solve");
 					LP denoted = fit->second.model;   // the writers drop empty rows (documented), so the file denotes the problem without them
 					{ std::vector<int> er; for (size_t i = 0; i < denoted.rows.size(); i++) { bool ne = false; for (auto &kv : denoted.rows[i].coef) if (kv.second != 0) ne = true; if (!ne) er.push_back((int)i); } denoted.del_rows(er); }
-					const RefResult &t = truth(denoted);
+					const RefResult &tfull = truth(fit->second.model);   // ... unless an "empty" row only holds explicit zeros, which the writers keep; either reading is accepted
+					bool full_ok = tfull.status && tfull.err.empty() && a.rv == 0 && a.status == tfull.status && (!ha || va == tfull.value);
+					const RefResult &t = full_ok ? tfull : truth(denoted);
 					if (a.rv == 0 && definitive(a.status) && t.status && t.err.empty()) { if (a.status != t.status || (ha && va != t.value)) { if (!(t.status == QS_LP_UNBOUNDED || a.status == QS_LP_UNBOUNDED)) violate(prop, "roundtrip-solution:" + fmt, "the re-read problem solves to " + status_name(a.status) + " " + qstr(va) + ", the written one to " + status_name(t.status) + " " + qstr(t.value)); } else probe("roundtrip.same_solution"); }
 					o->life = "other"; o->ever_solved = true; o->edited_since_solve = false;
 				}
